@@ -136,7 +136,7 @@ func main() {
 		writeKeeper(*repo, "stream", *ktypesOut, *keeperOut)
 	}
 	if *genDir != "" {
-		for _, m := range []string{"wrkchain", "beacon"} {
+		for _, m := range []string{"wrkchain", "beacon", "enterprise"} {
 			writeKeeper(*repo, m, filepath.Join(*genDir, modules[m].typesMod+".v"), filepath.Join(*genDir, modules[m].keeperMod+".v"))
 		}
 	}
